@@ -128,15 +128,21 @@ func runHistory(h *History, twin bool, progress func(step int)) *childOut {
 	if profOn {
 		fmt.Fprintf(os.Stderr, "C09PROF %v %v\n", profT, profN)
 	}
-	// tear down for real in every mode so that a child does not accumulate mappings
+	// tear down for real in every mode and collect (uncounted), so that a child
+	// neither accumulates mappings nor carries this history's garbage into the
+	// next one's mapping census
+	rts, cache := e.rts, e.cache
+	*e = executor{out: e.out}
 	for r := 0; r < nrt; r++ {
-		if e.rts[r] != nil {
-			e.rts[r].Close(e.ctx)
+		if rts[r] != nil {
+			rts[r].Close(context.Background())
 		}
 	}
-	if e.cache != nil {
-		e.cache.Close(e.ctx)
+	if cache != nil {
+		cache.Close(context.Background())
 	}
+	rts, cache = [2]wazero.Runtime{}, nil
+	gcAndDrain()
 	return e.out
 }
 
@@ -322,7 +328,7 @@ func (e *executor) exec(op *Op, inCall bool) string {
 		mod := e.insts[op.Inst]
 		var f api.Function
 		if mod != nil {
-			f = mod.ExportedFunction(op.Name)
+			guard(func() string { f = mod.ExportedFunction(op.Name); return "" })
 		}
 		e.held = append(e.held, f)
 		if op.Name == "pt_call" {
@@ -470,7 +476,7 @@ type pnode struct {
 func (e *executor) churn(n int) {
 	e.count("churn_steps")
 	r := e.rng
-	sizes := []int{8, 16, 24, 32, 48, 64, 80, 96, 112, 128, 192, 256, 512, 1024, 4096}
+	sizes := []int{8, 16, 24, 32, 48, 64, 80, 96, 112, 128, 192, 256, 512, 640, 768, 896, 1024, 1152, 2048, 4096}
 	for i := 0; i < n; i++ {
 		var o any
 		switch r.Intn(5) {
